@@ -168,13 +168,28 @@ class Ctx(object):
         K = list(self.K)
         if kinv is not None:  # a system whose *stored* constant of reaction kinv is inverted (new_eq_params=False path)
             K[kinv] = 1 / K[kinv]
-        self.eqsys = EqSystem(
-            [Equilibrium(dict(M.POOL[i][1]), dict(M.POOL[i][2]), _R(k)) for i, k in zip(idx, K)],
-            [Species.from_formula(n) for n in self.names],
-        )
+        self._species = [Species.from_formula(n) for n in self.names]
+        self._Kstored = K
+        self.eqsys = self._mk_eqsys()
         self._ns_cache = {}
         self._lam_cache = {}
         self._init_cache = {}
+
+    def _mk_eqsys(self):
+        from chempy import Equilibrium
+        from chempy.equilibria import EqSystem
+
+        return EqSystem([Equilibrium(dict(M.POOL[i][1]), dict(M.POOL[i][2]), _R(k)) for i, k in zip(self.idx, self._Kstored)], list(self._species))
+
+    def fresh_numsys(self, cfg):
+        """a NumSys on a brand-new EqSystem: a direct evaluation then depends on nothing evaluated before it (and is
+        reproduced by replaying the single case); evaluations that share one instance are the business of check_history"""
+        import sympy as sp
+
+        ns, re_, rp, nep = cfg
+        with warnings.catch_warnings():
+            warnings.simplefilter("ignore")
+            return _numsys(ns)(self._mk_eqsys(), backend=sp, rref_equil=re_, rref_preserv=rp, new_eq_params=nep)
 
     def cvec(self):
         return [self.cstar[n] for n in self.names]
@@ -319,7 +334,7 @@ class _Lazy(object):
         return self.v[k]
 
 
-def evaluate(ctx, cfg, tr, xi, scale, pert, mode):
+def evaluate(ctx, cfg, tr, xi, scale, pert, mode, numsys=None):
     """Run one NumSys.f evaluation; returns dict(obs=..., n=len, zero=[class|None per component], exc=...)"""
     import mpmath as mp
 
@@ -333,7 +348,7 @@ def evaluate(ctx, cfg, tr, xi, scale, pert, mode):
     if mode == "direct":
         params = [_R(x) for x in init] + ([_R(k) for k in K] if nep else [])
         try:
-            f = list(ctx.numsys(cfg).f(transform_exact(tr, c), params))
+            f = list((numsys or ctx.fresh_numsys(cfg)).f(transform_exact(tr, c), params))
         except Exception as e:
             return dict(exc="EXC %s" % type(e).__name__)
         if pert is None:
@@ -403,6 +418,42 @@ def check_one(res, ctx, cfg, tr, xi, scale, pert, mode):
             blocks = sorted({"equil" if k < ctx.nr else "preserv" for k in nz})
             res.outcomes["pert:%s:nonzero-in-%s" % (kind, "+".join(blocks))] += 1
     return ok
+
+
+def check_history(res, ctx, cfg, tr):
+    """ONE EqSystem / NumSys instance evaluated repeatedly with different constants (the way a solver calls it while K is
+    varied): at c* with the true K (must vanish), with each K_i inverted in turn (must not vanish), and with the true K
+    again (must vanish again).  The whole sequence is one case, replayed as a sequence."""
+    if not cfg[3]:
+        return True
+    nr = ctx.nr
+    steps = [None] + [("K-inverted", i) for i in range(nr) if ctx.K[i] != 1] + [None]
+    case = dict(layer="H", idx=list(ctx.idx), order=ctx.order, variant=ctx.variant, cfg=list(cfg), tr=tr, kinv=None)
+    site = "%s|re=%d,rp=%d,nep=%d|same-instance" % (cfg[0], cfg[1], cfg[2], cfg[3])
+    ns = ctx.fresh_numsys(cfg)
+    res.states += 1
+    res.transitions += len(steps)
+    res.nontrivial += 1
+    for n, pert in enumerate(steps):
+        o = evaluate(ctx, cfg, tr, (0,) * nr, "milli", pert, "direct", numsys=ns)
+        res.evaluations += 1
+        if o.get("skip"):
+            continue
+        if "exc" in o:
+            res.violation("C07|%s|raises" % site, "evaluation %d of %r on one instance raised %s" % (n, steps, o["exc"]), case, o["exc"], None)
+            return False
+        nz = [k for k, z in enumerate(o["zero"]) if z is None]
+        if pert is None and nz:
+            res.outcomes["HISTORY-nonzero-at-equilibrium"] += 1
+            res.violation("C07|%s|nonzero-at-equilibrium-after-other-constants" % site, "after evaluating the same instance with other constants (%r), f(c*, true K) = %s in components %s" % (
+                steps[:n], [o["vals"][k] for k in nz], nz), case, [o["vals"][k] for k in nz], "0")
+            return False
+        if pert is not None and not nz:
+            res.outcomes["HISTORY-zero-off-equilibrium"] += 1
+            res.violation("C07|%s|zero-off-equilibrium-stale-constants" % site, "evaluation %d (%r) on an instance already evaluated with the true K vanishes in every component" % (n, pert), case, "all zero", "non-zero")
+            return False
+    res.outcomes["history-ok"] += 1
+    return True
 
 
 def check_quotients(res, ctx):
@@ -496,6 +547,7 @@ def run_chunk(chunk, tier):
             res.symbols["new_eq_params:%s" % cfg[3]] += 1
             for tr in TRANSFORMS[cfg[0]]:
                 res.symbols["transform:" + tr] += 1
+                check_history(res, ctx, cfg, tr)
                 for e in exts:
                     xi, scale = e
                     for mode, zkey, pkey in (("direct", "direct_zero", "direct_pert"), ("symbolic", "sym_zero", "sym_pert")):
@@ -533,6 +585,8 @@ def replay(case):
     ctx = Ctx(tuple(case["idx"]), case["order"], case["variant"], kinv=case.get("kinv"))
     if layer == "f":
         check_one(res, ctx, tuple(case["cfg"]), case["tr"], tuple(case["xi"]), case["scale"], tuple(case["pert"]) if case.get("pert") else None, case["mode"])
+    elif layer == "H":
+        check_history(res, ctx, tuple(case["cfg"]), case["tr"])
     elif layer == "Q":
         check_quotients(res, ctx)
     elif layer == "cons":
